@@ -31,11 +31,6 @@ MUTANTS = [
      "edits": [{"file": P + "marginal.py",
                 "old": "    for i in range(length - 1):\n        for j in range(length - 1, i, -1):\n",
                 "new": "    for i in range(length - 2):\n        for j in range(length - 1, i, -1):\n"}]},
-    # marginal outcome basis one sector short
-    {"name": "marginal-outcome-basis-offset",
-     "edits": [{"file": P + "marginal.py",
-                "old": "    outcomes = get_fock_space_basis(k_marginal, n - n_post + 1)\n",
-                "new": "    outcomes = get_fock_space_basis(k_marginal, n - n_post)\n"}]},
     # new instruction matrix (loss included) multiplied from the wrong side
     {"name": "matrix-product-wrong-side",
      "edits": [{"file": P + "simulation_steps.py",
